@@ -88,6 +88,8 @@ def mapping_contract(rc: RuleCtx):
         if rows is None:
             cands = [v for k, v in env.items() if k not in ("indexes", "reduced", "removed", "sorted") and isinstance(v, Vec) and v.kind == "point"]
             rows = cands[0] if cands else None
+        if rows is None:
+            raise AnalysisError(f"rdp.mapping[{label}]: no two-column table in front of the scan (the rows it walks are not identified) - shape not recognised")
         if flag is TRUE:
             good = rows is not None and veq(rows, removed)
             want = "removed"
